@@ -521,7 +521,34 @@ def derived(I, sol, queries):
     return I.arr(times), I("closest", tuple(int(sol.closest_solve_step(t)) for t in queries)), cur
 
 
-RUNS = {1: (0, 100), 2: (3, 100), 3: (4, 2), 4: (5, 2)}      # nframes -> (steps, save_every)
+RUNS = {1: (0, 100), 2: (3, 100), 3: (4, 2), 4: (5, 2), 12: (22, 2)}      # nframes -> (steps, save_every)
+
+
+def dyn_rec_raw(I, f):
+    """The per-step records as an independent reader finds them in the file: the running_state groups of the frames in
+    NUMERIC step order, unused slots (dt = 0) dropped; time = running sum of dt."""
+    steps = sorted(int(s) for s in f["data"])
+    dts, mus, thetas, its = [], [], [], []
+    for k in steps:
+        g = f["data"][str(k)]
+        if "running_state" not in g:
+            continue
+        g = g["running_state"]
+        dts.append(np.atleast_1d(g["dt"]))
+        n = len(dts[-1])
+        if "mu" in g:
+            mus.append(np.reshape(g["mu"], (-1, n)))
+        if "theta" in g:
+            thetas.append(np.reshape(g["theta"], (-1, n)))
+        if "screening_iterations" in g:
+            its.append(np.atleast_1d(g["screening_iterations"]))
+    dt = np.concatenate(dts) if dts else np.array([], dtype=float)
+    mask = dt > 0
+    dt = dt[mask]
+    return {"dt": I.arr(dt), "time": I.arr(np.cumsum(dt)),
+            "mu": I.arr(np.concatenate(mus, axis=1)[..., mask]) if mus else 0,
+            "theta": I.arr(np.concatenate(thetas, axis=1)[..., mask]) if thetas else 0,
+            "screening_iterations": I.arr(np.concatenate(its)[mask]) if its else 0}
 
 
 def eps_of_time(r, *, t):
@@ -577,6 +604,7 @@ def solution_case(tdgl, args, tmp):
             with h5py.File(target, "r") as f:
                 steps = sorted(int(s) for s in f["data"])
                 frames = [frame_id_raw(I, f, s) for s in steps]
+                rawdyn = dyn_rec_raw(I, f)
         elif mode == "nofile":
             # the Solution solve() returns for output_file=None: it holds the last step and the dynamics, its file is gone
             orig = base_solution(tdgl, tmp, nsteps=nsteps, k=k, kind=dev, probes=probes, screening=shape["screening"], nofile=True,
@@ -586,12 +614,14 @@ def solution_case(tdgl, args, tmp):
             n = int(orig.data_range[1] - orig.data_range[0] + 1)
             steps = list(range(int(orig.data_range[0]), int(orig.data_range[1]) + 1))
             frames = [0] * (n - 1) + [frame_id_obj(I, orig.tdgl_data)]        # only the step it holds can be known
+            rawdyn = None                                                     # (no file to read)
         else:
             base = base_solution(tdgl, tmp, nsteps=nsteps, k=k, kind=dev, probes=probes, screening=shape["screening"], smooth=smooth, pre=pre, dyn=dyn)
             shutil.copy(base.path, work)
             with h5py.File(work, "r") as f:
                 steps = sorted(int(s) for s in f["data"])
                 frames = [frame_id_raw(I, f, s) for s in steps]
+                rawdyn = dyn_rec_raw(I, f)
             # the object that is saved: the solver's own Solution (its mesh is the one it was computed on), at step cur
             orig = tdgl.Solution(device=base.device, options=base.options, path=work,
                                  applied_vector_potential=base.applied_vector_potential, terminal_currents=base.terminal_currents,
@@ -600,7 +630,7 @@ def solution_case(tdgl, args, tmp):
         total = float(orig.dynamics.time[-1]) if len(orig.dynamics.time) else 1.0
         queries = [0.0, 0.26 * total, 0.5 * total, 0.74 * total, total, 2 * total]
         otimes, oclosest, ocur = derived(I, orig, queries)
-        ev.append({"ev": "made", "saved": {"frames": frames, "dyn": dyn_rec(I, orig.dynamics), "times": otimes, "closest": oclosest,
+        ev.append({"ev": "made", "saved": {"frames": frames, "dyn": rawdyn if rawdyn is not None else dyn_rec(I, orig.dynamics), "times": otimes, "closest": oclosest,
                                            "mesh": mesh_id(I, mesh_rec(I, orig.device.mesh)), "currents": ocur},
                    "recomp": mesh_id(I, recomputed_rec(I, tdgl, orig.device.mesh))})
         if mode == "solved":
